@@ -35,6 +35,13 @@ def families(tier, rng):
         for end in (["send", 1, "QUIT"], ["vanish", 1], ["vanish", 1, "reset"], ["sendraw", 1, list(b"\xff\r\n")]):
             for a in range(0, 9 if tier == "quick" else 16):
                 fam.append(("endrace:%s" % pname, p + [["nq", end], ["iter", a], ["nq", ["srvclose"]], ["tick", 0]]))
+    # ... and a peer that closes or resets the connection a few loop iterations after a command that ends the session
+    # (or any other command) has been sent: replies still queued can no longer be written
+    for pname, p in pre.items():
+        for cmd in ("QUIT", "PWD", "EPSV 1", "XYZZY"):
+            for end in (["vanish", 1], ["vanish", 1, "reset"]):
+                for a in range(0, 6 if tier == "quick" else 12):
+                    fam.append(("gonerace:%s" % pname, p + [["nq", ["send", 1, cmd]], ["iter", a], ["nq", end], ["tick", 0]]))
     for end in (["vanish", 1], ["vanish", 1, "reset"]):
         for a in range(0, 6):
             fam.append(("early", [["nq", ["connect", 1]], ["iter", a], ["nq", end], ["tick", 0], ["connect", 1], ["send", 1, "USER u2"],
